@@ -14,7 +14,9 @@ import (
 	"go/parser"
 	"go/token"
 	"go/types"
+	"io"
 	"os"
+	"os/exec"
 	"path/filepath"
 	"sort"
 	"strings"
@@ -106,8 +108,40 @@ func generateOverlay(repo, verif, scratch, flavour string) (string, *instrStats,
 	// type information for the map-range rewrite (order flavour only)
 	mapRanges := map[*ast.RangeStmt]bool{}
 	if flavour == "order" {
-		imp := importer.ForCompiler(fset, "source", nil)
-		for dir, files := range byDir {
+		// type information from export data of the already built packages
+		// (go list -export), so that every range operand has a type
+		exports := map[string]string{}
+		cmd := exec.Command("go", "list", "-export", "-deps", "-json=ImportPath,Export", "./...")
+		cmd.Dir = repo
+		cmd.Env = goEnv()
+		out, err := cmd.Output()
+		if err != nil {
+			return "", nil, fmt.Errorf("go list -export: %w", err)
+		}
+		dec := json.NewDecoder(bytes.NewReader(out))
+		for dec.More() {
+			var p struct{ ImportPath, Export string }
+			if err := dec.Decode(&p); err != nil {
+				break
+			}
+			if p.Export != "" {
+				exports[p.ImportPath] = p.Export
+			}
+		}
+		imp := importer.ForCompiler(fset, "gc", func(path string) (io.ReadCloser, error) {
+			f, ok := exports[path]
+			if !ok {
+				return nil, fmt.Errorf("no export data for %s", path)
+			}
+			return os.Open(f)
+		})
+		var dirs []string
+		for dir := range byDir {
+			dirs = append(dirs, dir)
+		}
+		sort.Strings(dirs)
+		for _, dir := range dirs {
+			files := byDir[dir]
 			hasRange := false
 			var afs []*ast.File
 			for _, p := range files {
@@ -123,7 +157,13 @@ func generateOverlay(repo, verif, scratch, flavour string) (string, *instrStats,
 				continue
 			}
 			info := &types.Info{Types: map[ast.Expr]types.TypeAndValue{}}
-			conf := types.Config{Importer: imp, Error: func(error) {}}
+			nerr := 0
+			conf := types.Config{Importer: imp, Error: func(e error) {
+				nerr++
+				if nerr <= 2 {
+					stats.NotOwned = append(stats.NotOwned, "type error: "+e.Error())
+				}
+			}}
 			rel, _ := filepath.Rel(repo, dir)
 			_, _ = conf.Check(modPath+"/"+filepath.ToSlash(rel), fset, afs, info)
 			for _, p := range files {
@@ -134,7 +174,7 @@ func generateOverlay(repo, verif, scratch, flavour string) (string, *instrStats,
 					}
 					tv, ok := info.Types[rs.X]
 					if !ok || tv.Type == nil {
-						stats.NotOwned = append(stats.NotOwned, fset.Position(rs.Pos()).String()+" (no type)")
+						stats.NotOwned = append(stats.NotOwned, relTo(repo, fset.Position(rs.Pos()).String())+" (no type)")
 						return true
 					}
 					if _, isMap := tv.Type.Underlying().(*types.Map); isMap {
